@@ -1,6 +1,7 @@
 import GormModel.Drv.Util
 import GormModel.Model.CondValue
 import GormModel.Model.UpdateKeys
+import GormModel.Drv.C02c
 open Lean
 namespace Gorm.Drv
 namespace HC02
@@ -45,7 +46,7 @@ def handleC02b (op : String) (args : Array Json) : Option Json := do
     let sets ← parsePairs (arg args 3)
     let o := updConvertToAssignments Gen.updateKeyBlockBeforeAssignments pks m sets
     some (Json.mkObj [("conds", pairsJ o.conds), ("set", pairsJ o.set), ("after", pairsJ o.after)])
-  | _ => none
+  | _ => handleC02c op args
 
 end HC02
 end Gorm.Drv
